@@ -32,6 +32,9 @@ type Case struct {
 	Exit int `json:"exit"`
 	// … or dies from this signal number (Signal != 0).
 	Signal  int    `json:"signal"`
+	// Linger > 0: the helper leaves a child behind that keeps its stdout open
+	// for that many milliseconds after it has exited.
+	Linger  int    `json:"linger,omitempty"`
 	Form    string `json:"form"`    // direct | exec
 	Context string `json:"context"` // alone | and | or | try | pipeline
 }
@@ -135,6 +138,9 @@ func setup(t *testing.T) func() {
 
 func (c Case) call() string {
 	arg := fmt.Sprintf("--exit %d", c.Exit)
+	if c.Linger > 0 {
+		arg = fmt.Sprintf("--linger %d --exit %d", c.Linger, c.Exit)
+	}
 	if c.Signal != 0 {
 		arg = fmt.Sprintf("--kill %d", c.Signal)
 	}
@@ -264,6 +270,13 @@ func domain() []Case {
 			for _, s := range signals {
 				all = append(all, Case{Signal: s, Form: f, Context: ctx})
 			}
+		}
+	}
+	// a command that exits while a left-behind child still holds its stdout
+	// (`sh -c 'sleep 2 & exit 0'`): the exit status is still the command's own
+	for _, ctx := range []string{"alone", "and", "or", "try"} {
+		for _, n := range []int{0, 1, 3} {
+			all = append(all, Case{Exit: n, Linger: 1600, Form: "direct", Context: ctx})
 		}
 	}
 	return all
